@@ -1796,7 +1796,8 @@ func (r *Raft) sendInstallSnapshot(id, address string) {
 	response, err := r.transport.SendInstallSnapshot(address, request)
 	r.mu.Lock()
 
-	if follower.snapshot == nil || err != nil {
+	// The node may have stepped down or been stopped while the lock was released.
+	if r.state != Leader || follower.snapshot == nil || err != nil {
 		return
 	}
 
